@@ -563,10 +563,38 @@ func cmdConfirmProgs(args []string) error {
 	// regenerate the corpus in the same order: the rule objects are then in the state they were in at export time
 	cases, objs, _, _ := generateProgCases(m)
 	byID := map[int]progCase{}
+	byRule := map[string]int{}
 	for i, c := range cases {
 		c.ID = i + 1
 		cases[i] = c
 		byID[c.ID] = c
+		if _, dup := byRule[c.Rule]; !dup {
+			byRule[c.Rule] = c.ID
+		}
+	}
+	// the ids of the diffs are those of the EXPORT run; a defect that makes the corpus itself unstable (a rule that has
+	// a shortcut in one run and none in the next) shifts the numbering, so the exported case is found again by its text
+	if m["all"] != "" {
+		exported, err := readND[progCase](m["all"])
+		if err != nil {
+			return err
+		}
+		remap := map[int]progCase{}
+		for _, ec := range exported {
+			if id, ok := byRule[ec.Rule]; ok {
+				c := byID[id]
+				c.ID = ec.ID
+				remap[ec.ID] = c
+				objs[-ec.ID] = objs[id]
+			} else if c, robj, err := exportRuleObj(ec.ID, ec.Rule, ec.Src, ""); err == nil {
+				remap[ec.ID] = c
+				objs[-ec.ID] = robj
+			}
+		}
+		byID = remap
+		for id := range remap {
+			objs[id] = objs[-id]
+		}
 	}
 	diffs, err := readND[progDiff](m["diffs"])
 	if err != nil {
@@ -636,8 +664,13 @@ func cmdConfirmProgs(args []string) error {
 		}
 		out.write(pc)
 	}
-	for _, c := range cases {
-		if c.Status == "panic" {
+	var ids []int
+	for id := range byID {
+		ids = append(ids, id)
+	}
+	sort.Ints(ids)
+	for _, id := range ids {
+		if c := byID[id]; c.Status == "panic" {
 			run(c, "http://example.org/", false, true)
 		}
 	}
